@@ -15,6 +15,8 @@ CLAIMED = {
          "TLC checks termination without state constraint, AskAtMostOnce, EvalBound, NoLostWaiter, NoEarlyRelease on generated programs incl. cyclic ones; each real drain must release exactly the waiters the specification computes (multiset), work counters of real runs judged by Judge.tla; the tracer bounds events so a livelock yields a finite rejected trace.", "6/C06"),
  "C13": ("model_checking", "TLC model checking (AskOnlyDemandedMissing, NoAskAfterRefusal, UnreadNotRequired) + trace validation of every prompt",
          "TLC checks the prompt discipline on all schedules; each real prompt must be for an unmet input of the specification's tracker with needed_by equal to the registered waiters, never after a refusal; asked inputs judged against the program (the quoted lines really stop at that input).", "6/C13"),
+ "C02": ("exploration", "TLC evaluates Lines.tla: equations generated from the instruction text of the bundled official templates (plus cited hand transcriptions) on every explored solution",
+         "About 90 equations per year are generated at check time from the line instructions printed in the bundled IRS templates (add / subtract with floor / multiply by rate / smaller of / carry from schedule), matched to lines by the line number in the label, not through the program's PDF mappings; about 70 more per year are cited hand transcriptions (worksheets, status look-ups, NC forms with wording quoted from the bundled NC PDFs). Every equation is evaluated by TLC in integer cents on the stored, rounded lines of every explored real solution; carries taken from another line of the source form than the instruction names are detected from the trace's reads.", "6/C02"),
  "C07": ("exploration", "TLC evaluates TaxSchedule.tla (Rev. Proc. brackets, table-row geometry, midpoint rule; limb arithmetic above 32 bits) on observations of figure_tax()",
          "figure_tax() is swept (thorough: every whole-dollar income below $100,000 for 5 statuses x 3 years; every row and bracket boundary with one-cent neighbours; seeded incomes up to $1e12) and every observation is judged by TLC against an oracle written from the Revenue Procedures, independent of the program's hand-entered tables.", "6/C07"),
  "C08": ("translation_validation", "constants harvested from every bound line definition by forced execution per filing status; TLC compares them with the Official table of Statutory.tla",
@@ -44,6 +46,7 @@ CLAIMED = {
 }
 
 NOTES = {
+ "C02": "explored solutions are seeded samples; an equation is skipped on a solution lacking one of its operands (counted in the evidence); hand-transcribed equations are as good as the transcription (harness/hand_lines.py); percentages within 1 cent, whole-dollar lines within 50 cents",
  "C18": "PDF text extraction (stdlib inflate + XML/regex) is trusted base; fields whose label carries no line number are only checked for existence, kind, export value, limits; six reviewed label exceptions in data/pdfmap_exceptions.json",
  "C11": "the Lex.tla grammar is my statement of what each type documents; correct rounding of binary floats not decided (cent precision for plain decimals); '%' outside the alphabet",
  "C12": "explored returns are seeded samples; rounding judged on the repr of stored doubles",
